@@ -362,6 +362,76 @@ def adjacency_rule(R, rid, tf2, duals):
                         "fused, e.g. a `-` ending a line and a `-` starting the next become a comment", ["%s:%d" % (tf2.file, s_["line"])])
 
 
+def _may_take_bracket(P, g, depth=3, _seen=None):
+    """does parser function g (or a parser function it calls, bounded) advance the token stream behind a test for `[`?"""
+    _seen = _seen or set()
+    if g.key in _seen or depth < 0:
+        return False
+    _seen.add(g.key)
+    tests = False
+    for c in g.calls:
+        if re.search(r"PartialEq(<.*>)?>?::(eq|ne)$", short(c.name)) and any(_token_const(g, a_) == "LeftSquareParentheses" for a_ in c.args):
+            tests = True
+    for b in sorted(g.reach):
+        info = F.switch_info(g, b)
+        if info and info[0] == "discr" and (info[1].get("adt") or "").endswith("tokenizer::Token"):
+            names = {dv: n for dv, n in info[1].get("variants", [])}
+            if any(names.get(l) == "LeftSquareParentheses" for l in info[2] if l != "otherwise"):
+                tests = True
+    if tests and any(re.search(r"Parser::(next|expect_and_consume_token|consume_\w+)$", short(c.name)) for c in g.calls):
+        return True
+    for c in g.calls:
+        for k in P.callee_keys(g, c):
+            h = P.fns[k]
+            if h.spath.startswith(PARSER) and _may_take_bracket(P, h, depth - 1, _seen):
+                return True
+    return False
+
+
+def _rhs_source(R, f):
+    """C13.rhs: what follows a binary operator is read by the operand parser (so that what follows *that* is again seen by the climbing
+    loop).  An operator whose right side is read by some other routine is accepted only if that routine cannot take a `[`: otherwise
+    the subscript in `x::T[i]` / `a OP b[i]` is swallowed and the expression no longer groups as the property says."""
+    P = R.prog
+    R.rule("C13.rhs", "in the climbing loop every operator's right side comes from the operand parser (parse_unary_operator, or the "
+                      "bracketed expression of a subscript); an iteration that bypasses it calls nothing that may consume a `[`")
+    nxt = [c for c in f.calls if short(c.name) == PARSER + "next" and PR.loop_of(f, c.bb)]
+    if not nxt:
+        R.note("C13.rhs: the climbing loop does not advance with Parser::next; not instantiated")
+        return
+    lp = PR.loop_of(f, nxt[0].bb)
+    hdr, body = lp
+    operand = [c for c in f.calls if c.bb in body and re.search(r"Parser::(parse_unary_operator|parse_expression_internal|parse_primary_expression|parse_expression)$", short(c.name))]
+    if not operand:
+        R.violation("C13.rhs", "loop|no-operand-parser", "the climbing loop never calls the operand parser for a right side", [f.loc(hdr)])
+        return
+    tgt = f.blocks[nxt[0].bb]["term"].get("target")
+    by = f.reachable_from(tgt, avoid=set(c.bb for c in operand) | {hdr}) if tgt is not None else set()
+    back = [b for b in by if b in body and any(y == hdr for y in f.succs(b))]
+    if not back:
+        R.ok("C13.rhs", "loop", "every iteration that continues the loop read its right side with the operand parser (%d call sites)" % len(operand),
+             nxt[0].loc())
+        return
+    # blocks on some bypassing path from the operator to the back edge
+    on_path = set(b for b in by if b in body and any(bb_ in f.reachable_from(b, avoid=set(c.bb for c in operand) | {hdr}) or bb_ == b for bb_ in back))
+    bad = []
+    for c in f.calls:
+        if c.bb not in on_path or c is nxt[0]:
+            continue
+        for k in P.callee_keys(f, c):
+            h = P.fns[k]
+            if h.spath.startswith(PARSER) and _may_take_bracket(P, h):
+                bad.append((c, h))
+    if bad:
+        c, h = bad[0]
+        R.violation("C13.rhs", "loop|bypass|%s" % h.spath.split("::")[-1],
+                    "an operator of the climbing loop reads its right side with %s instead of the operand parser, and %s takes a following `[` "
+                    "for itself: a subscript after that operator's right side (`x::T[i]`) is no longer the tightest-binding operator applied "
+                    "to the result" % (h.spath.split("::")[-1], h.spath.split("::")[-1]), [c.loc()])
+    else:
+        R.ok("C13.rhs", "loop", "iterations that bypass the operand parser call nothing that can take a `[`", nxt[0].loc())
+
+
 def run(R):
     R.rule("C13.table", "precedence constants: min(p(::), p([), p(.)) > p(*) = p(/) > p(+) = p(-) > p(comparison) = p(IS) = p(IS NOT) = p(IN) = "
                         "p(NOT IN) > p(AND) > p(OR) >= 0 and every non-operator token maps below 0")
@@ -442,6 +512,7 @@ def run(R):
                                       "strictly tighter, at token_precedence + 1", rec[0].loc())
     # ---- which operators may refuse to extend their right operand
     _climb_exclusions(R, f, rec, p if not missing else None)
+    _rhs_source(R, f)
     # ---- prefix operators
     # the prefix-operator function: the Parser method that builds the Invert (NOT) node
     pinned_ = PR.pinned_fns()
